@@ -10,7 +10,7 @@ NOT_APPLICABLE["C03"] = ("relation between an arbitrary dynamic call tree and an
                          "evolution of handler collections and accumulator forks; no sound static abstraction in reach bounds embeddings")
 NOT_APPLICABLE["C07"] = ("quantifies over call trees and runtime data flow through Total accumulator forks; its only structural clause "
                          "(exit hook on every way out) is decided under C06 rule R06.1")
-SOURCE_COMMITS = ["746fd1a fix: undo the instrumentation counts when the new variant cannot be installed", "798314f fix: untool the functions of a selector that autotool ends up refusing", "f8603ba fix: roll back the tooling of earlier selectors when a later one is refused", "e29e1a9 fix: mark the cached instrumented variants as helper functions", "ceee686 fix: match the receiver of a bound-method selector by identity", "f362961 fix: serialize instrumentation changes between threads", "3d31492 fix: do not rewrite the bodies of nested classes, lambdas and async functions"]
+SOURCE_COMMITS = ["746fd1a fix: undo the instrumentation counts when the new variant cannot be installed", "798314f fix: untool the functions of a selector that autotool ends up refusing", "f8603ba fix: roll back the tooling of earlier selectors when a later one is refused", "e29e1a9 fix: mark the cached instrumented variants as helper functions", "ceee686 fix: match the receiver of a bound-method selector by identity", "f362961 fix: serialize instrumentation changes between threads", "3d31492 fix: do not rewrite the bodies of nested classes, lambdas and async functions", "744a5c2 fix: rewrite the right-hand side of assignments too"]
 
 claim("C12", "P", "AST normal-form comparison tables + wrapper-guard agreement (syntactic dataflow)",
       "Decides structural clauses only: each stock comparison predicate is the single comparison its name states (holds for all "
@@ -67,3 +67,10 @@ claim("C01", "T", "abstract interpretation of the AST-builder code over a term d
       "declaration order; target-shape totality; closure cells shared. Observational equality itself is not claimed. Eight genuine defects of the pinned tree are listed as known findings with inputs.",
       "Trusted: CPython's NodeTransformer dispatch/splicing and evaluation order table; interact returns its argument when nothing intercepts (C04). Builder code outside the interpreted subset gives ANALYSIS-ERROR.",
       "DESIGN.md sections 3 and 6, C01")
+
+claim("C06", "T+P", "template queries on the abstract-interpretation output (nesting of With/Try/finally/handler and position of the meta interactions on every path), literal-table agreement",
+      "Decides the bracket structure of the emitted code for all programs and all control-flow paths at once: function body inside with-proceed and a try whose first statement is #enter, "
+      "whose handler catches BaseException, reports #error and re-raises, and whose finally is #exit; per-iteration try/finally with #loop/#endloop; shape of return/yield rewriting; no unvisited "
+      "expression slot; meta-name/tag tables agree across emitting sites, _standard_info, verification and fitting. Two genuine defects (no #value on fall-through; double #value when a finally returns) are known findings.",
+      "Trusted: Python's try/finally/with semantics (finally runs on every way out, including generator close). Event values and counts at run time are not decided.",
+      "DESIGN.md section 6, C06")
